@@ -54,6 +54,7 @@ w("MC_TlsApp_dev_HsFailLeaksWorker", dict(SMALL, Dev='{"HsFailLeaksWorker"}'), T
 w("MC_TlsApp_dev_ReadAheadLost", dict(Dev='{"ReadAheadLost"}', TIds="{}", FocusCat='"loop"', FocusMax=2), TINV + " " + HINV, spec="TlsMCSafety")
 w("MC_TlsApp_dev_CrlfAfterBody", dict(Dev='{"CrlfAfterBody"}', TIds="{1}"), TINV + " " + HINV, spec="TlsMCSafety")
 w("MC_TlsApp_dev_TlsNoFlush", dict(Dev='{"TlsNoFlush"}', TIds="{}", Runtime='"tokio"'), TINV + " " + HINV, spec="TlsMCSafety")
+w("MC_TlsApp_dev_NagleHoldsResponse", dict(Dev='{"NagleHoldsResponse"}', TIds="{}"), TINV + " " + HINV, spec="TlsMCSafety")
 w("MC_TlsApp_focus_tokio_quick", dict(TIds="{1}", Runtime='"tokio"'), TINV + " " + HINV, "Live_GoodServed")
 w("MC_TlsApp_dev_RedirectDropsQuery", dict(RED, Dev='{"RedirectDropsQuery"}'), RINV, spec="TlsMCSafety")
 w("MC_TlsApp_dev_RedirectExitsOnError", dict(RED, Dev='{"RedirectExitsOnError"}'), RINV, spec="TlsMCSafety")
